@@ -499,13 +499,14 @@ def run(ctx):
     tf = ctx.fn("lace::runtime::RunEnvironment::try_from")
     main = ctx.fn("bin::main")
     defaults = {}
-    for f, nm in ((tf, "run"), (main, "compile")):
-        for b, t, c in f.calls():
-            if c and c.endswith("Option::<T>::unwrap_or") and f.local_ty(t["dest"]["l"]) == "u16":
-                defaults[nm] = const_int(t["args"][1])
-        for b, t, c in f.calls():
-            if c and c.endswith("to_be_bytes") and const_int(t["args"][0]) is not None:
-                defaults[nm] = const_int(t["args"][0])
+    from .c07 import command_units as _cu
+    _units = dict(_cu(ctx, main))
+    for f, nm, blks in ((tf, "run", None), (main, "compile", main.reachable(_units["Compile"]) if "Compile" in _units else None)):
+        ds = sorted(set(kit.default_origins(prog, f, blks)))
+        if len(ds) == 1:
+            defaults[nm] = ds[0]
+        elif ds:
+            defaults[nm] = None
     ctx.instance(2, {"default origin": {k: hex(v) if v is not None else None for k, v in defaults.items()}})
     ok = defaults.get("run") == 0x3000 and defaults.get("compile") == 0x3000
     ctx.oblig(ok)
